@@ -182,6 +182,13 @@ func tlsDevMutator(d tlsDev, r *mon.RNG, pki *tlsPKI, changed *bool, hitType *by
 					}
 				}
 				repl = [][]byte{hs(mm)}
+			case "sigalg":
+				// the SignatureAndHashAlgorithm value(s) of this message replaced by the single value arg (TLS 1.2 forms)
+				if mm := c15RewriteSigAlg(m, uint16(d.arg)); mm != nil {
+					repl = [][]byte{hs(mm)}
+				} else {
+					repl = [][]byte{orig}
+				}
 			case "split":
 				if d.arg > 0 && d.arg < len(m) {
 					repl = [][]byte{hs(m[:d.arg]), hs(m[d.arg:])}
@@ -364,6 +371,22 @@ func runC15TLS(c *Ctx, pki *tlsPKI) {
 				for _, off := range []int{1, 3, 4, 5, 37} {
 					add("split", off, 0)
 				}
+				// every signature-scheme code point a peer might name where this message carries one (ClientHello extension,
+				// ServerKeyExchange, CertificateRequest, CertificateVerify): hash 0..8 x signature 0..8 and the code points
+				// other standards define (0x0708 sm2sig_sm3, 0x08xx), known ones with a key they do not fit included
+				if t.ver == gmtls.VersionTLS12 && (mi.typ == 1 || mi.typ == 12 || mi.typ == 13 || mi.typ == 15) {
+					for hsh := 0; hsh <= 8; hsh++ {
+						for sg := 0; sg <= 8; sg++ {
+							if !c.Thorough && (hsh+sg+k)%3 != 0 && !(hsh == 2 && sg == 4) {
+								continue
+							}
+							add("sigalg", hsh<<8|sg, 0)
+						}
+					}
+					for _, v := range []int{0x0708, 0x0804, 0x0805, 0x0806, 0x0807, 0x0809, 0xfefe, 0xffff} {
+						add("sigalg", v, 0)
+					}
+				}
 			}
 		}
 	}
@@ -386,6 +409,8 @@ func runC15TLS(c *Ctx, pki *tlsPKI) {
 			devCls += fmt.Sprintf("/type=%d", j.dev.arg)
 		case "prepend-alert":
 			devCls += fmt.Sprintf("/%d-%d", j.dev.arg, j.dev.arg2)
+		case "sigalg":
+			devCls += fmt.Sprintf("/hash=%02x", j.dev.arg>>8)
 		}
 		cls := fmt.Sprintf("tls/%s/%s/msgtype=%d/%s", j.t.name, under, j.typ, devCls)
 		w := map[string]interface{}{"target": j.t.name, "endpoint_under_test": under, "deviation": j.dev.String(), "message_type": j.typ,
@@ -550,4 +575,89 @@ func runC15Blind(c *Ctx, pki *tlsPKI) {
 			rep.EvalTrivial(cls)
 		}
 	})
+}
+
+// c15RewriteSigAlg rewrites the signature-scheme field(s) of a TLS 1.2 handshake message to the single value v; nil when
+// the message has no such field in a place this parser understands.
+func c15RewriteSigAlg(m []byte, v uint16) []byte {
+	if len(m) < 4 {
+		return nil
+	}
+	body := m[4:]
+	vb := []byte{byte(v >> 8), byte(v)}
+	rebuild := func(nb []byte) []byte { return ref.HSMsg(m[0], nb) }
+	switch m[0] {
+	case 12: // ServerKeyExchange, ECDHE: curve_type(1) curve(2) len(1) point sigalg(2) siglen(2) sig
+		if len(body) < 4 || body[0] != 3 {
+			return nil
+		}
+		o := 4 + int(body[3])
+		if o+2 > len(body) {
+			return nil
+		}
+		nb := append([]byte{}, body...)
+		copy(nb[o:], vb)
+		return rebuild(nb)
+	case 15: // CertificateVerify: sigalg(2) siglen(2) sig
+		if len(body) < 4 {
+			return nil
+		}
+		nb := append([]byte{}, body...)
+		copy(nb, vb)
+		return rebuild(nb)
+	case 13: // CertificateRequest: types sigalgs CAs
+		if len(body) < 1 {
+			return nil
+		}
+		o := 1 + int(body[0])
+		if o+2 > len(body) {
+			return nil
+		}
+		l := int(body[o])<<8 | int(body[o+1])
+		if o+2+l > len(body) {
+			return nil
+		}
+		nb := append(append(append([]byte{}, body[:o]...), 0, 2, vb[0], vb[1]), body[o+2+l:]...)
+		return rebuild(nb)
+	case 1: // ClientHello: the signature_algorithms extension
+		o := 2 + 32
+		if o >= len(body) {
+			return nil
+		}
+		o += 1 + int(body[o])
+		if o+2 > len(body) {
+			return nil
+		}
+		o += 2 + (int(body[o])<<8 | int(body[o+1]))
+		if o >= len(body) {
+			return nil
+		}
+		o += 1 + int(body[o])
+		if o+2 > len(body) {
+			return nil
+		}
+		extStart := o + 2
+		var exts []byte
+		found := false
+		for p := extStart; p+4 <= len(body); {
+			typ := int(body[p])<<8 | int(body[p+1])
+			l := int(body[p+2])<<8 | int(body[p+3])
+			if p+4+l > len(body) {
+				return nil
+			}
+			if typ == 13 {
+				exts = append(exts, 0, 13, 0, 4, 0, 2, vb[0], vb[1])
+				found = true
+			} else {
+				exts = append(exts, body[p:p+4+l]...)
+			}
+			p += 4 + l
+		}
+		if !found {
+			return nil
+		}
+		nb := append(append([]byte{}, body[:o]...), byte(len(exts)>>8), byte(len(exts)))
+		return rebuild(append(nb, exts...))
+	}
+	return nil
 }
